@@ -58,7 +58,13 @@ Fixpoint hex_fuel (fuel : nat) (n : N) (acc : bytes) : bytes :=
   end.
 Definition hex_of_N (n : N) : bytes := hex_fuel (S (N.to_nat (N.log2 n))) n [].
 
-Definition chunked_writer {St} (w : wfn St) : wfn St :=
+(* bufio.Writer.Flush of the connection: new state, failed? *)
+Definition flushfn (St : Type) := St -> St * bool.
+Definition noflush {St} : flushfn St := fun s => (s, false).
+
+(* chunkedWriter.Write; [after] = the Flush that follows every complete chunk when the wire is a
+   FlushAfterChunkWriter (noflush otherwise) *)
+Definition chunked_writer_f {St} (after : flushfn St) (w : wfn St) : wfn St :=
   fun s p =>
     match p with
     | [] => (s, 0, false)
@@ -69,8 +75,10 @@ Definition chunked_writer {St} (w : wfn St) : wfn St :=
         if e2 then (s2, n2, true) else
         if negb (Nat.eqb n2 (length p)) then (s2, n2, true) else   (* io.ErrShortWrite *)
         let '(s3, _, e3) := w s2 crlf in
-        (s3, n2, e3)
+        if e3 then (s3, n2, true) else
+        let '(s4, e4) := after s3 in (s4, n2, e4)
     end.
+Definition chunked_writer {St} (w : wfn St) : wfn St := chunked_writer_f noflush w.
 
 (* io.MultiWriter(w, dumpw) as the pinned http3 sendRequestBody used it: the dump writer is a
    second destination whose failure or short write fails the whole Write *)
@@ -141,7 +149,15 @@ Arguments mkSend {St}. Arguments sr_state {St}. Arguments sr_failed {St}. Argume
    flush decision).  [flush_sees_bufio]: whether the type assertion of w to a bufio.Writer succeeds at the
    "Flush and wait for 100-continue" point. Repaired code (fix bfce677) asserts on the raw
    writer: always. *)
-Definition h1_send_gen {St} (flush_rule : list dumper -> bool) (ds : list dumper) (w : wfn St) (s : St)
+(* [flush]: Flush of the connection's bufio.Writer.  [chunk_rule]: whether transferWriter.writeBody
+   turns the raw writer into a FlushAfterChunkWriter for a chunked body - the code asserts
+   *bufio.Writer on the RAW writer rw, so: always (a version asserting on the dump-wrapped `w` would
+   flush chunk by chunk only when no request-body dumper is installed). *)
+Definition lift_flush {St} (f : flushfn St) : flushfn (St * log) :=
+  fun st => let '(s', e) := f (fst st) in ((s', snd st), e).
+
+Definition h1_send_gen {St} (flush_rule chunk_rule : list dumper -> bool) (flush : flushfn St)
+                       (ds : list dumper) (w : wfn St) (s : St)
                        (q : h1_request) : send_result St * log :=
   let hw := wrap_writer ds PReqH HReqHeader (lift w) in
   let '(st1, e1) := write_all hw (s, []) (q_header_writes q) in
@@ -151,8 +167,9 @@ Definition h1_send_gen {St} (flush_rule : list dumper -> bool) (ds : list dumper
   | None => (mkSend (fst st1) false flushed, snd st1)
   | Some chunks =>
       let ww := wrap_writer ds PReqB HReqBody (lift w) in     (* `w` of writeBody *)
+      let after := if chunk_rule ds then lift_flush flush else noflush in
       let bw := if q_chunked q
-                then wrap_writer ds PReqB HReqBody (chunked_writer (lift w))   (* `cw` *)
+                then wrap_writer ds PReqB HReqBody (chunked_writer_f after (lift w))   (* `cw` *)
                 else ww in
       let '(st2, e2) := write_all bw st1 chunks in
       if e2 then (mkSend (fst st2) true flushed, snd st2) else
@@ -171,25 +188,34 @@ Definition flush_rule_fixed (ds : list dumper) : bool := true.
    dumper wrapped it *)
 Definition flush_rule_pinned (ds : list dumper) : bool :=
   negb (existsb (fun d => enabled (snd d) PReqH) ds).
+Definition chunk_rule_fixed (ds : list dumper) : bool := true.
+(* the assertion made on the body-dump-wrapped writer instead of the raw one *)
+Definition chunk_rule_wrapped (ds : list dumper) : bool :=
+  negb (existsb (fun d => enabled (snd d) PReqB) ds).
 
-Definition h1_send {St} := @h1_send_gen St flush_rule_fixed.
-Definition h1_send_pinned {St} := @h1_send_gen St flush_rule_pinned.
+(* streamed upload with an explicit Flush of the connection *)
+Definition h1_send_f {St} := @h1_send_gen St flush_rule_fixed chunk_rule_fixed.
+Definition h1_send_f_wrapped {St} := @h1_send_gen St flush_rule_fixed chunk_rule_wrapped.
+(* the flush abstracted away (it does not change what is written) *)
+Definition h1_send {St} := @h1_send_gen St flush_rule_fixed chunk_rule_fixed noflush.
+Definition h1_send_pinned {St} := @h1_send_gen St flush_rule_pinned chunk_rule_fixed noflush.
 
 (* the same function with no dump code at all *)
-Definition h1_send_plain {St} (w : wfn St) (s : St) (q : h1_request) : send_result St :=
+Definition h1_send_plain_f {St} (flush : flushfn St) (w : wfn St) (s : St) (q : h1_request) : send_result St :=
   let '(s1, e1) := write_all w s (q_header_writes q) in
   let flushed := q_expect_continue q in
   if e1 then mkSend s1 true false else
   match q_body q with
   | None => mkSend s1 false flushed
   | Some chunks =>
-      let '(s2, e2) := write_all (if q_chunked q then chunked_writer w else w) s1 chunks in
+      let '(s2, e2) := write_all (if q_chunked q then chunked_writer_f flush w else w) s1 chunks in
       if e2 then mkSend s2 true flushed else
       let '(s3, e3) := if q_chunked q then write_all w s2 [bs "0" ++ crlf] else (s2, false) in
       if e3 then mkSend s3 true flushed else
       let '(s5, e5) := if q_chunked q then write_all w s3 [crlf] else (s3, false) in
       mkSend s5 e5 flushed
   end.
+Definition h1_send_plain {St} := @h1_send_plain_f St noflush.
 
 (* response side: header block through the readLine variant chosen by
    GetResponseHeaderDumpers(...).ShouldDump(), then the body through the wrapped reader *)
